@@ -84,6 +84,8 @@ package bigbuff
 //@ func var:waitDuration
 //@   props C18
 //@   nopanic always : true
+//@   ensures waited : d > 0 ==> icalls("time.NewTimer") == 1 && timerstopped(timer)
+//@   ensures skipped : d <= 0 ==> icalls("time.NewTimer") == 0
 
 //@ func ExponentialRetry
 //@   props C18
@@ -184,6 +186,11 @@ package bigbuff
 //@ func (*Channel).Get
 //@   props C13 C12
 //@   action mutex
+//@   # the caller's context is checked in every round before the lock is taken; the poll ticker exists before it is waited on and is stopped on the way out
+//@   at-call (*Channel).Get$1>(*sync.Mutex).Lock#0 callerctx : ctx != nil ==> lasterr(ctx) == nil
+//@   loop 0 invariant ticking : ticker != nil ==> !timerstopped(ticker)
+//@   loop 0 pending-defer ticker : ticker != nil
+//@   ensures stopped : ticker != nil ==> timerstopped(ticker)
 //@   loop 0 invariant unset : value == nil
 //@   ensures step : err == nil ==> value == taken(c, old(cursor(c))) && cursor(c) == old(cursor(c)) + 1 && c.k == old(c.k)
 //@   ensures replay : err == nil && old(c.rollback) > 0 ==> c.rollback == old(c.rollback) - 1 && unchanged(c.buffer)
@@ -235,6 +242,15 @@ package bigbuff
 //@   props C13 C12
 //@   ensures wired : ret1 == nil ==> ret0 != nil && ret0.valid && ret0.done != nil && ret0.cancel != nil && ret0.ctx != nil && !closed(ret0.done) && !oncedone(ret0.close) && ret0.rollback == 0 && len(ret0.buffer) == 0 && ret0.rate > 0
 //@   ensures err : ret1 != nil ==> ret0 == nil
+//@   # validation: a negative poll rate, a nil source, a non-channel and a send-only channel are rejected; everything else is accepted
+//@   ensures badrate : pollRate < 0 ==> ret1 != nil
+//@   ensures nilsource : source == nil ==> ret1 != nil
+//@   ensures notchan : source != nil && rt_kind(rt_of(source)) != 18 ==> ret1 != nil
+//@   ensures sendonly : source != nil && rt_kind(rt_of(source)) == 18 && rt_chandir(rt_of(source)) == 2 ==> ret1 != nil
+//@   ensures accepted : pollRate >= 0 && source != nil && rt_kind(rt_of(source)) == 18 && rt_chandir(rt_of(source)) != 2 ==> ret1 == nil
+//@   ensures rate : ret1 == nil ==> ret0.rate == ite(pollRate == 0, 1000000, pollRate) && ret0.source == rv_of(source)
+//@   ensures child : ret1 == nil ==> icalls("context.WithCancel") == 1 && ret0.ctx == ilast("context.WithCancel", 0) && spawned("(*Channel).cleanup") == 1
+//@   at-call context.WithCancel#0 parent : ctx != nil ==> arg0 == ctx
 
 // ---------------------------------------------------------------------------------------------------
 // C14 — Workers (workers.go). maxreq = largest count any caller has requested so far (ghost).
@@ -362,6 +378,7 @@ package bigbuff
 //@   loop 0 invariant ticking : ticker != nil && !timerstopped(ticker)
 //@   at-call send#0 fresh : lasterr(ctx) == nil
 //@   ensures closedonce : closed(c)
+//@   ensures stopped : ticker != nil ==> timerstopped(ticker)
 //@   ensures bound : sent(c) <= old(sent(c)) + count
 
 // ---------------------------------------------------------------------------------------------------
@@ -595,7 +612,10 @@ package bigbuff
 //@   ensures values : ctx != nil ==> ctxvalues(ret) == ctxvalues(ctx)
 //@   # "already cancelled if any input already is": whatever error the done input reports
 //@   ensures already : (ctx != nil && old(cancelled(ctx))) || some(j, 0, len(others), others[j] != nil && old(cancelled(others[j]))) ==> cancelled(ret)
-//@   loop 0 invariant count : n >= 0 && icalls("context.WithCancel") == 0
+//@   # with at least one non-nil other (and a live primary) the result is a derived context, never the primary itself
+//@   ensures derived : (old(ctx) == nil || !cancelled(old(ctx))) && some(j, 0, len(others), others[j] != nil) ==> icalls("context.WithCancel") == 1 && ret == ilast("context.WithCancel", 0)
+//@   ensures plain : old(ctx) != nil && all(j, 0, len(others), others[j] == nil) ==> ret == old(ctx)
+//@   loop 0 invariant count : n >= 0 && icalls("context.WithCancel") == 0 && -1 <= rangeindex && rangeindex < len(others) && (n == 0 <==> all(j, 0, rangeindex + 1, others[j] == nil))
 //@   loop 0 invariant live : (old(ctx) != nil ==> !old(cancelled(old(ctx)))) && all(j, 0, rangeindex + 1, others[j] != nil ==> !old(cancelled(others[j])))
 //@   loop 1 invariant hooks : heldnone() && cancel != nil && now(ctx) != nil && all(j, 0, len(stops), stops[j] != nil) && ctxvalues(now(ctx)) == ctxvalues(old(ctx)) || old(ctx) == nil
 //@   at-call context.WithCancel#0 precancelled : lasterr(other) != nil && arg0 == ctx__0
@@ -625,7 +645,7 @@ package bigbuff
 //@   panics empty : len(contexts) == 0
 //@   loop 0 invariant counted : wgn(wg) == 1 + icalls("ChainAfterFunc") && (ok <==> icalls("ChainAfterFunc") > 0) && calls(now(cancel)) == 0 && now(ctx) != nil && now(cancel) != nil
 //@   at-call context.WithCancel#0 detached : nevercancelled(arg0) && ctxvalues(arg0) == ctxvalues(contexts[0])
-//@   at-call ChainAfterFunc#0 each : arg0 == now(ctx) && arg1 == ctx2 && boundname(arg2) == "(*sync.WaitGroup).Done" && boundrecv(arg2) == wg
+//@   at-call ChainAfterFunc#0 each : arg0 == now(ctx) && arg1 == ctx2 && boundname(arg2) == "(*sync.WaitGroup).Done" && boundrecv(arg2) == wg && lasterr(ctx2) == nil
 //@   ensures live : ok ==> calls(now(cancel)) == 0 && spawned("ConflatedContext$2") == 1 && wgn(wg) == icalls("ChainAfterFunc")
 //@   ensures dead : !ok ==> calls(now(cancel)) == 1 && spawned("ConflatedContext$2") == 0
 //@   ensures results : ctx != nil && cancel != nil
@@ -705,7 +725,11 @@ package bigbuff
 //@   props C02
 //@   ensures nilconsumer : consumer == nil ==> err != nil
 //@   ensures nilfn : fn == nil ==> err != nil
-//@   loop 0 invariant idx : index >= 0 && calls(fn) >= 0
+//@   # the index handed to fn counts the iterations, from 0
+//@   loop 0 invariant idx : index == icalls("Range$1") && calls(fn) >= 0 && consumer != nil && fn != nil && (index > 0 ==> ilast("Range$1", 0))
+//@   at-call Range$1#0 live : ctx != nil ==> lasterr(ctx) == nil
+//@   # the loop ends only because the context is done, an iteration failed, or fn asked to stop
+//@   ensures ranged : consumer != nil && fn != nil && err == nil ==> icalls("Range$1") >= 1 && !ilast("Range$1", 0)
 //@   at-call (context.Context).Err#0 first : true
 
 //@ func Range$1
@@ -976,6 +1000,7 @@ package bigbuff
 //@   props C09
 //@   panics baddur : d <= 0
 //@   panics nilfn : fn == nil
+//@   nopanic valid : d > 0 && fn != nil
 //@   ensures wrapped : ret != nil && captured(ret, fn) == fn && captured(ret, d) == d
 
 //@ func MinDuration$1
